@@ -36,8 +36,8 @@ def loop_signature(atts, ti, te, dyn, minTs):
     if te == ti:
         return SITE_TEPS          # the unfixed tolerance (te - ti) * 100 * eps is zero: the loop cannot end
     for k, (t, dt) in enumerate(atts):
-        if dyn and minTs < 0 and t + dt > te + 2 * tol:
-            return SITE_CLAMP
+        if dyn and minTs < 0 and t + dt > te:
+            return SITE_CLAMP    # a step beyond te that the clamp `dt = te - t` should have shortened
         if k > 0 and abs(te - t) <= tol:
             return SITE_TEPS      # te was reached up to rounding, and another attempt was made
     return None
